@@ -41,7 +41,7 @@ theorem get_app_iter_eq (method : List Char) (status : Int) (dp : Bool) :
       = if Resp.bodyless status method then 0 else if dp then 1 else 2 := by
   unfold get_app_iter Resp.bodyless
   have e : "HEAD".toList = ['H', 'E', 'A', 'D'] := rfl
-  simp only [e, Bool.or_assoc]
+  simp only [e, Bool.or_assoc, id_eq]
 
 /-- `Response._is_range_request_processable(environ)`, as translated from the current source
 (`("HTTP_IF_RANGE" not in environ or not is_resource_modified(…, ignore_if_range=False)) and
